@@ -39,6 +39,7 @@ A_CLONE = 'A-clone: Clone::clone of the cache key/value types returns an equal v
 A_F64 = 'A-f64: the floating-point grow test of the Lru is replaced by an arbitrary function of (num_filled, cap) that can answer true only above half full; under C16 this fact is PROVED for the real condition text by the Kani harness k_lru_grow_test_only_above_half (all n, all cap < 32)'
 A_MODEL_ITER = 'A-model-iter: in unit robdd `PartialModel::assignment_iter()` (iterator-adapter chain over two BitSets) is a trusted stub yielding the sequence m.lits(); Literal is the two-field stub of A-lit'
 A_CNF_STUB = 'A-cnf-stub / A-iter-std: in the builder units `Cnf` is an opaque stub exposing its clause list; in compile_cnf the expression `cnf.clauses().iter().any(|x| x.is_empty())` and the sorting prologue (`to_vec` + `sort_by` with a comparator built from max_by closures) are replaced by stubs with the std semantics -- the sort stub returns SOME rearrangement of the clauses (two mutually inverse index maps), so the comparator heuristic is outside the proof and nothing is assumed about the order it produces; Literal is the two-field stub of A-lit'
+A_HEAP = 'A-heap / A-count / R-for-while: in compile_cnf_with_assignments the std BinaryHeap is a trusted stub whose pop returns SOME held element and removes that occurrence (the proof covers every pop order, so the Ord impl of CompiledCNF and count_nodes -- unverified, scratch-based, used only as priority -- carry no proof weight); the inner `for lit in clause.iter()` (break/continue) is desugared to an indexed while over the same Vec with the body text unchanged; PartialModel is the stub of A-model-iter with `get` returning val(label) (the contract proved for the real get in unit cnf)'
 A_KANI = 'A-kani: soundness of Kani 0.68 / CBMC 6.11; kani::any() ranges over every bit pattern of the type'
 
 prop('C01',
@@ -124,14 +125,15 @@ prop('C15',
      kani=[{'name': 'k_lit_roundtrip'}, {'name': 'k_lit_implies'}],
      assumptions=[A_VERUS, A_EXTRACT, A_KANI,
                   'A-bitset: bit_set::BitSet insert/remove/contains behave as a mathematical set of usize (external crate, trusted stub)',
-                  'A-lit: in the Verus unit Literal is a two-field stub (label, polarity); the bit packing it stands for is proved on the real code by the Kani harnesses of this same check'],
+                  'A-lit: in the Verus unit Literal is a two-field stub (label, polarity); the bit packing it stands for is proved on the real code by the Kani harnesses of this same check',
+                  'A-cnf-new: Cnf::new (iterator-adapter code) is a trusted stub where condition calls it: the stored clause list has the meaning of the given one and every label is below num_vars'],
      replay='cnf',
      bounded_extra=['hasher'],
      explanation='Cnf::eval == "every clause has a literal true under the assignment" and Cnf::is_sat_partial == "every clause has a literal ASSIGNED true" (empty clause => false, empty list => true), '
-                 'by nested loop invariants over the real loops; PartialModel get/set/unset/is_set/lit_implied/lit_neg_implied and VarSet insert/remove/contains against a set view, with the frame '
+                 'by nested loop invariants over the real loops; Cnf::condition against substitution of the literal; PartialModel get/set/unset/is_set/lit_implied/lit_neg_implied and VarSet insert/remove/contains against a set view, with the frame '
                  '(other variables unchanged) and the invariant that no variable is in both sets; Literal bit packing by Kani over all u64 x bool',
      not_covered=[
-         'Cnf::new (iterator chains, sort_by_key, dedup) [bounded check `cnf` only]', 'Cnf::condition (labelled continue inside for) [bounded check `cnf` only]', 'CnfHasher (HashSet; external prime sieve; labelled continue): the residual-formula hasher sentence of the property has a bounded check only (`hasher`)',
+         'Cnf::new (iterator chains, sort_by_key, dedup) [bounded check `cnf` only]', 'Cnf::condition is under contract -- (F | l) evaluates on every assignment a like F on a with l\'s variable set to l\'s polarity, by invariants over the two real loops (whole clause skipped on a literal equal to l, the opposite literal dropped) -- with two declared loop-header rewrites (R-for-while: labelled `continue` needs a `while`) and its final call `Cnf::new(&new_cnf)` answered by the stub of A-cnf-new [+ bounded check `cnf`]', 'CnfHasher (HashSet; external prime sieve; labelled continue): the residual-formula hasher sentence of the property has a bounded check only (`hasher`)',
          'AssignmentIter::next (fold closure) and Cnf::wmc (brute-force counting) [bounded check `cnf` only; it found the empty-formula defect fixed in 18754bc]',
          'VarSet union / minus / intersect_varset / difference and PartialModel constructors / assignment_iter / difference (BitSet iterator adapters) [bounded check `cnf` only]',
      ])
@@ -154,13 +156,14 @@ prop('C14',
 
 prop('C05',
      units=['bottomup', 'builder', 'ite', 'ptr', 'order', 'cache', 'lru', 'robdd'],
-     assumptions=[A_VERUS, A_EXTRACT, A_PTREQ, A_CELL, A_MODEL_ITER, A_CNF_STUB, A_TERM, A_CAP, A_HASH, A_CLONE, A_F64],
+     assumptions=[A_VERUS, A_EXTRACT, A_PTREQ, A_CELL, A_MODEL_ITER, A_CNF_STUB, A_HEAP, A_TERM, A_CAP, A_HASH, A_CLONE, A_F64],
      replay='compile',
      explanation='compile_logical_expr(e) and compile_plan(p) (trait default methods, generic in the pointer type) denote expr_sem(e) / plan_sem(p), the structural meaning of the enum; '
                  'collapse_clauses denotes the conjunction of its slice and is None exactly for the empty slice; for the BDD builder the operations they call are the ones proved under C01 (same units), for any variable order',
      not_covered=[
          'compile_cnf (BDD builder) is under contract -- empty list: true; an empty clause: false; otherwise the diagram of the conjunction of the clauses, by invariants over the real per-clause and per-literal loops and the proved collapse_clauses -- with four declared rewrites: the empty-clause test and the clause-sorting prologue are the stubs of A-cnf-stub (the comparator heuristic is NOT verified; the proof holds for any rearrangement of the clauses), and two loop headers are written with `.iter()` [+ bounded check `compile`]',
-         'compile_cnf_with_assignments (BinaryHeap, count_nodes on scratch) [bounded check `compile` only: equal pointer to compile-then-condition_model]', 'BottomUpPlan::from_dtree (iter().skip(1).fold) [bounded check `compile` only]',
+         'compile_cnf_with_assignments is under contract -- the result is ordered, canonical and denotes the formula with the assigned variables overridden by the partial model (cnf_holds(cls, over(env, m)), i.e. the formula conditioned on the assignment), for every heap pop order -- with the rewrites and stubs of A-heap; that it is the SAME POINTER as condition_model(compile_cnf(..)) follows from the canonicity theorem (unit canonthm) given equal functions, and is additionally observed by the bounded check `compile`',
+         'BottomUpPlan::from_dtree (iter().skip(1).fold) [bounded check `compile` only]',
          'everything SDD (C03 is not applicable): compile_* under the SDD builder and any vtree [bounded check `compile` only: all vtrees over 3 variables, four over 4]',
      ])
 
